@@ -61,7 +61,7 @@ def probes():
     return ["sync_ok", "class_target_rewritten", "target_appended_to_existing_file", "empty_file_filled",
             "missing_file_created", "second_sync_noop_checked", "truth_class", "truth_function", "truth_argparse",
             "fault_fired", "crash_fired", "recovery_delete", "recovery_empty", "recovery_restore", "convergence_checked",
-            "user_edit", "restart", "method_target", "black_absent", "decoy_same_name_nested", "third_sync_noop_checked",
+            "user_edit", "restart", "method_target", "black_absent", "decoy_same_name_nested", "class_target_with_unannotated_attribute", "third_sync_noop_checked",
             "one_file_listed_for_two_roles"]
 
 
@@ -84,7 +84,8 @@ def project(draw):
             # a surrounding definition that *contains* something named like the target (nested class / method of
             # another class): unrelated code by the statement, a trap for name-only lookups
             "decoy": draw(st.integers(0, 3)) == 3,
-            "shared": draw(st.integers(0, 5)) == 5}
+            "shared": draw(st.integers(0, 5)) == 5,
+            "legacy_attr": draw(st.integers(0, 4)) == 4}
 
 
 @st.composite
@@ -128,7 +129,10 @@ def target_name(p, kind):
 
 def render_target(p, kind, spec):
     if kind == "class":
-        return gen.render_class(dict(spec, name=p["class_name"]))
+        # sometimes the class also holds a stale attribute WITHOUT annotation (`legacy = 1`): part of the "arbitrary
+        # interface" a target may initially have; a sync from another truth must not leave it behind
+        return gen.render_class(dict(spec, name=p["class_name"]),
+                                extra_body=("legacy = 1",) if p.get("legacy_attr") else ())
     if kind == "function":
         if p["method"]:
             return 'class Holder(object):\n    """Holder of the method."""\n\n    marker = 1\n\n' + \
@@ -335,6 +339,8 @@ def simulate(plan):
         bump(probe, "method_target")
     if p.get("decoy"):
         bump(probe, "decoy_same_name_nested")
+    if p.get("legacy_attr") and p["states"]["class"] == "present":
+        bump(probe, "class_target_with_unannotated_attribute")
     world = SimWorld(tag="c12")
     _set_files(p)
     files = {}
